@@ -94,10 +94,12 @@ class CancelClient(RunnerClient):
         if k is None:
             return cs
         what = None
+        if ev.kind == "enter" and self.callee_is(ev, "_RetryState._handle_failure"):
+            what = "failure handling"
         if ev.kind == "call" and ev.target is not None:
             if ev.target.kind == "callback":
                 what = f"callback {ev.target.category}"
-            elif self.callee_is(ev, "_RetryState._handle_failure") or self.callee_is(ev, "Budget.consume"):
+            elif self.callee_is(ev, "Budget.consume"):
                 what = "failure handling"
             elif self.is_operation(ev):
                 what = "operation"
